@@ -1,8 +1,1323 @@
-//! Engine `strings` (stub).
+//! Engine `strings` (C13): the string built-ins against independent re-implementations on `std`.
+//!
+//! Stages (option `--stage`):
+//!   exhaustive  every needle of length 0..=6 x every haystack of length 0..=10 over {a,b} and
+//!               over {a,é}; find, replace (5 replacements), split+join. One case = one haystack.
+//!   tiers       needle-length tiers 1 / 2 / 3..=16 / 17..=64, periodic / near-periodic /
+//!               Fibonacci / all-same / random needles inserted at every position of a filler.
+//!   split       split then join, separators of 1..=20 bytes at start / end / adjacent.
+//!   slice       slice over the bound grid x strings with 1..4-byte characters; len.
+//!   text        trim / to_uppercase / to_lowercase / to_number / len on a mixed alphabet.
+//!   script      a sample of every class through lexer + parser + checker + runtime.
+//!   replay      re-runs one recorded evaluation (`--file replay.json`) and prints both sides.
+//!
+//! The oracle never calls into naijascript. A difference is reported with a signature that
+//! names the operation, the kind of disagreement and the needle-length tier.
+
+use std::collections::HashMap;
+use std::io::Write;
+
+use naijascript::arena::{Arena, ArenaCow};
+use naijascript::builtins::{ArrayBuiltin, StringBuiltin, find, replace};
+use naijascript::runtime::Value;
+use serde_json::{Value as J, json};
+
 use crate::Ctx;
+use crate::model::print::escape_plain;
+use crate::pipeline::{self, RunCfg};
+use crate::util::{self, Proto, Rng};
+
+pub const EXH_MAX_HAY: usize = 10;
+pub const EXH_MAX_NEEDLE: usize = 6;
+/// haystacks of length 0..=10 over a two-letter alphabet
+pub const EXH_HAYSTACKS: u64 = (1 << (EXH_MAX_HAY + 1)) - 1;
+pub const EXH_NEEDLES: u64 = (1 << (EXH_MAX_NEEDLE + 1)) - 1;
+/// two alphabets
+pub const EXH_CASES: u64 = 2 * EXH_HAYSTACKS;
+
+const MAX_FAILS_PER_SIG: u32 = 3;
+const MAX_DEATHS_PER_SHARD: u64 = 2;
+const ARENA_BYTES: usize = 16 << 20;
+
+// ---------------------------------------------------------------------------
+// Oracles (std only)
+// ---------------------------------------------------------------------------
+
+fn naive_find(h: &[u8], n: &[u8]) -> Option<usize> {
+    if n.is_empty() {
+        return Some(0);
+    }
+    if n.len() > h.len() {
+        return None;
+    }
+    (0..=h.len() - n.len()).find(|&i| &h[i..i + n.len()] == n)
+}
+
+/// Some window of `h` differs from `n` in exactly one byte.
+fn has_near_miss(h: &[u8], n: &[u8]) -> bool {
+    if n.is_empty() || n.len() > h.len() {
+        return false;
+    }
+    (0..=h.len() - n.len()).any(|i| {
+        let mut d = 0;
+        for k in 0..n.len() {
+            if h[i + k] != n[k] {
+                d += 1;
+                if d > 1 {
+                    return false;
+                }
+            }
+        }
+        d == 1
+    })
+}
+
+/// Left-to-right, non-overlapping substitution written out by hand.
+fn oracle_replace(h: &str, from: &str, to: &str) -> String {
+    let mut out = String::with_capacity(h.len());
+    if from.is_empty() {
+        // the empty string occurs once at every character boundary
+        out.push_str(to);
+        for ch in h.chars() {
+            out.push(ch);
+            out.push_str(to);
+        }
+        return out;
+    }
+    let mut pos = 0;
+    while let Some(i) = naive_find(&h.as_bytes()[pos..], from.as_bytes()) {
+        out.push_str(&h[pos..pos + i]);
+        out.push_str(to);
+        pos += i + from.len();
+    }
+    out.push_str(&h[pos..]);
+    out
+}
+
+const BIG: i128 = 1 << 100;
+
+/// A slice bound as a character position: floored, negative counted from the end, clamped.
+fn oracle_bound(x: f64, len: i128) -> i128 {
+    let f = x.floor();
+    let mut v: i128 = if f >= 1e30 {
+        BIG
+    } else if f <= -1e30 {
+        -BIG
+    } else {
+        f as i128
+    };
+    if v < 0 {
+        v += len;
+    }
+    v.clamp(0, len)
+}
+
+fn oracle_slice(s: &str, a: f64, b: f64) -> String {
+    let chars: Vec<char> = s.chars().collect();
+    let len = chars.len() as i128;
+    let (i, j) = (oracle_bound(a, len), oracle_bound(b, len));
+    if i < j { chars[i as usize..j as usize].iter().collect() } else { String::new() }
+}
+
+/// Characters = bytes that are not UTF-8 continuation bytes.
+fn oracle_len(s: &str) -> f64 {
+    s.bytes().filter(|b| b & 0xC0 != 0x80).count() as f64
+}
+
+fn oracle_trim(s: &str) -> String {
+    let cs: Vec<char> = s.chars().collect();
+    let mut i = 0;
+    while i < cs.len() && cs[i].is_whitespace() {
+        i += 1;
+    }
+    let mut j = cs.len();
+    while j > i && cs[j - 1].is_whitespace() {
+        j -= 1;
+    }
+    cs[i..j].iter().collect()
+}
+
+fn bound_class(x: f64, len: usize) -> &'static str {
+    if x.is_nan() {
+        "nan"
+    } else if x.is_infinite() {
+        if x > 0.0 { "+inf" } else { "-inf" }
+    } else if x.abs() >= 9.2e18 {
+        if x > 0.0 { "+huge" } else { "-huge" }
+    } else if x.fract() != 0.0 {
+        if x < 0.0 { "neg-frac" } else { "frac" }
+    } else if x < 0.0 {
+        if -x > len as f64 { "neg-oor" } else { "neg" }
+    } else if x > len as f64 {
+        "oor"
+    } else {
+        "plain"
+    }
+}
+
+fn tier(nlen: usize) -> usize {
+    match nlen {
+        0 => 0,
+        1 => 1,
+        2 => 2,
+        3..=16 => 3,
+        17..=64 => 4,
+        _ => 5,
+    }
+}
+const TIER_NAMES: [&str; 6] = ["0", "1", "2", "3..16", "17..64", "65.."];
+
+fn hash_parts(parts: &[&[u8]]) -> u64 {
+    let mut h: u64 = 0xCBF2_9CE4_8422_2325;
+    for p in parts {
+        for b in *p {
+            h ^= u64::from(*b);
+            h = h.wrapping_mul(0x100_0000_01B3);
+        }
+        h ^= 0xFF;
+        h = h.wrapping_mul(0x100_0000_01B3);
+    }
+    let mut x = h;
+    util::splitmix64(&mut x)
+}
+
+fn clip(s: &str) -> String {
+    if s.len() <= 400 { s.to_string() } else { format!("{}… ({} bytes)", s.chars().take(200).collect::<String>(), s.len()) }
+}
+
+fn lossy(b: &[u8]) -> String {
+    format!("{:?} (raw bytes {:02x?})", String::from_utf8_lossy(b), &b[..b.len().min(64)])
+}
+
+#[derive(Clone, Copy, PartialEq)]
+enum Near {
+    /// not a near-miss by construction and not worth computing
+    No,
+    /// a copy of the needle with one byte changed was planted
+    Planted,
+    /// decide by scanning (small inputs)
+    Compute,
+}
+
+// ---------------------------------------------------------------------------
+// Checker state
+// ---------------------------------------------------------------------------
+
+struct St<'p> {
+    out: &'p mut Proto,
+    idx: u64,
+    stage: String,
+    sig_seen: HashMap<String, u32>,
+    trace: Option<std::fs::File>,
+    tier_evals: [u64; 6],
+    tier_nt: [u64; 6],
+    flip: bool,
+    /// small batches (Miri)
+    lite: bool,
+    /// exhaustive stage: case i runs haystack (i * pick_every) mod EXH_CASES
+    pick_every: u64,
+}
+
+impl St<'_> {
+    fn fail(&mut self, sig: String, detail: J, replay: J) {
+        let c = self.sig_seen.entry(sig.clone()).or_insert(0);
+        *c += 1;
+        if *c <= MAX_FAILS_PER_SIG {
+            let mut replay = replay;
+            replay["engine"] = json!("strings");
+            replay["stage"] = json!(self.stage);
+            self.out.fail(self.idx, &sig, detail, replay);
+        } else {
+            self.out.tag("failures_not_written_out.same_signature_seen_before");
+        }
+    }
+
+    fn panic_fail(&mut self, op: &str, msg: &str, loc: &str, replay: J) {
+        let sig = format!("panic|{}|{}", util::normalise_msg(msg), util::panic_site(loc));
+        self.fail(sig, json!({"op": op, "panic": msg, "at": loc}), replay);
+    }
+
+    fn trace(&mut self, op: &str, a: &str, b: &str, c: &str) {
+        if let Some(f) = self.trace.as_mut() {
+            let _ = writeln!(f, "{}", json!({"op": op, "a": a, "b": b, "c": c, "needle_tier": TIER_NAMES[tier(b.len())]}));
+        }
+    }
+
+    fn flush_tiers(&mut self) {
+        for t in 0..6 {
+            self.out.tag_n(&format!("tier.{}", TIER_NAMES[t]), self.tier_evals[t]);
+            self.out.tag_n(&format!("tier.{}.nontrivial", TIER_NAMES[t]), self.tier_nt[t]);
+        }
+        self.tier_evals = [0; 6];
+        self.tier_nt = [0; 6];
+    }
+
+    // ---- find ----
+
+    /// Returns the oracle's answer.
+    fn check_find(&mut self, h: &str, n: &str, near: Near) -> Option<usize> {
+        self.out.evaluations += 1;
+        let t = tier(n.len());
+        self.tier_evals[t] += 1;
+        self.trace("find", h, n, "");
+        let exp = naive_find(h.as_bytes(), n.as_bytes());
+        let exp_std = h.find(n);
+        let replay = || json!({"op": "find", "h": h, "n": n});
+        if exp != exp_std {
+            self.out.inconclusive(self.idx, "oracles disagree (naive scan vs str::find)", json!({"h": clip(h), "n": clip(n), "naive": exp, "std": exp_std}));
+            return exp_std;
+        }
+        match util::guarded(|| (find(h, n), StringBuiltin::find(h, n))) {
+            Err((msg, loc)) => self.panic_fail("find", &msg, &loc, replay()),
+            Ok((got, got_f)) => {
+                if got != exp {
+                    let kind = match (got, exp) {
+                        (None, Some(_)) => "missed-occurrence",
+                        (Some(_), None) => "spurious-match",
+                        (Some(g), Some(e)) if g > e => {
+                            if h.as_bytes().get(g..g + n.len()) == Some(n.as_bytes()) { "not-first-occurrence" } else { "wrong-offset" }
+                        }
+                        _ => "wrong-offset",
+                    };
+                    self.fail(
+                        format!("find|{kind}|needle={}", TIER_NAMES[t]),
+                        json!({"haystack": clip(h), "needle": clip(n), "haystack_bytes": h.len(), "needle_bytes": n.len(), "expected": exp, "got": got}),
+                        replay(),
+                    );
+                } else {
+                    #[allow(clippy::cast_precision_loss)]
+                    let want_f = exp.map_or(-1.0, |v| v as f64);
+                    if got_f != want_f {
+                        self.fail("find|method-result-differs-from-search".into(), json!({"haystack": clip(h), "needle": clip(n), "expected": want_f, "got": got_f}), replay());
+                    }
+                    if let Some(o) = got
+                        && !h.is_char_boundary(o)
+                    {
+                        self.fail("find|offset-not-char-boundary".into(), json!({"haystack": clip(h), "needle": clip(n), "got": o}), replay());
+                    }
+                }
+            }
+        }
+        let nt = match exp {
+            Some(i) => i > 0,
+            None => match near {
+                Near::Planted => true,
+                Near::Compute => has_near_miss(h.as_bytes(), n.as_bytes()),
+                Near::No => false,
+            },
+        };
+        if nt {
+            self.tier_nt[t] += 1;
+            self.out.nontrivial(hash_parts(&[b"find", h.as_bytes(), n.as_bytes()]));
+            if self.out.samples.len() < self.out.max_samples && (self.idx + h.len() as u64) % 7 == 0 && n.len() >= 2 {
+                self.out.sample(json!({"op": "find", "haystack": clip(h), "needle": clip(n), "expected": exp, "near_miss": exp.is_none()}));
+            }
+        }
+        exp
+    }
+
+    // ---- replace ----
+
+    fn check_replace(&mut self, arena: &Arena, h: &str, n: &str, to: &str) {
+        self.out.evaluations += 1;
+        self.trace("replace", h, n, to);
+        let exp = oracle_replace(h, n, to);
+        let exp_std = h.replace(n, to);
+        if exp != exp_std {
+            self.out.inconclusive(self.idx, "oracles disagree (hand-written replace vs str::replace)", json!({"h": clip(h), "n": clip(n), "to": to}));
+            return;
+        }
+        self.flip = !self.flip;
+        let direct = self.flip;
+        let r = util::guarded(|| {
+            let out = if direct { replace(arena, h, n, to) } else { StringBuiltin::replace(h, n, to, arena) };
+            let bytes = out.as_bytes();
+            match std::str::from_utf8(bytes) {
+                Err(_) => Some(Err(bytes.to_vec())),
+                Ok(s) if s != exp => Some(Ok(s.to_string())),
+                Ok(_) => None,
+            }
+        });
+        unsafe { arena.reset(0) };
+        let replay = || json!({"op": "replace", "h": h, "n": n, "to": to});
+        let t = TIER_NAMES[tier(n.len())];
+        match r {
+            Err((msg, loc)) => self.panic_fail("replace", &msg, &loc, replay()),
+            Ok(None) => {}
+            Ok(Some(Err(bytes))) => self.fail("replace|invalid-utf8".to_string(), json!({"haystack": clip(h), "pattern": clip(n), "replacement": to, "got": lossy(&bytes)}), replay()),
+            Ok(Some(Ok(got))) => self.fail(
+                format!("replace|differs|needle={t}"),
+                json!({"haystack": clip(h), "pattern": clip(n), "replacement": clip(to), "expected": clip(&exp), "got": clip(&got)}),
+                replay(),
+            ),
+        }
+    }
+
+    // ---- split / join ----
+
+    fn check_split_join(&mut self, arena: &Arena, h: &str, sep: &str) {
+        if sep.is_empty() {
+            return; // not part of the property
+        }
+        self.out.evaluations += 1;
+        self.trace("split_join", h, sep, "");
+        #[derive(Debug)]
+        enum Bad {
+            PieceHasSep(String),
+            PieceUtf8(Vec<u8>),
+            JoinUtf8(Vec<u8>),
+            NotIdentity(String, usize),
+        }
+        let r = util::guarded(|| {
+            let mut coll: Vec<Value<'_>, &Arena> = Vec::with_capacity_in(h.len() / sep.len().max(1) + 1, arena);
+            StringBuiltin::split(h, sep, arena).for_each(|s| coll.push(Value::Str(ArenaCow::Owned(s))));
+            for v in &coll {
+                let Value::Str(ArenaCow::Owned(p)) = v else { unreachable!() };
+                let Ok(ps) = std::str::from_utf8(p.as_bytes()) else {
+                    return Some(Bad::PieceUtf8(p.as_bytes().to_vec()));
+                };
+                if naive_find(ps.as_bytes(), sep.as_bytes()).is_some() {
+                    return Some(Bad::PieceHasSep(ps.to_string()));
+                }
+            }
+            let joined = ArrayBuiltin::join(&coll, sep, arena);
+            match std::str::from_utf8(joined.as_bytes()) {
+                Err(_) => Some(Bad::JoinUtf8(joined.as_bytes().to_vec())),
+                Ok(j) if j != h => Some(Bad::NotIdentity(j.to_string(), coll.len())),
+                Ok(_) => None,
+            }
+        });
+        unsafe { arena.reset(0) };
+        let replay = || json!({"op": "split_join", "h": h, "n": sep});
+        match r {
+            Err((msg, loc)) => self.panic_fail("split_join", &msg, &loc, replay()),
+            Ok(None) => {
+                if naive_find(h.as_bytes(), sep.as_bytes()).is_some() {
+                    self.out.nontrivial(hash_parts(&[b"split", h.as_bytes(), sep.as_bytes()]));
+                    self.out.tag("split_join.separator_occurs");
+                    if self.out.samples.len() < self.out.max_samples && self.idx % 5 == 0 {
+                        self.out.sample(json!({"op": "split then join", "string": clip(h), "separator": clip(sep), "result": "identity"}));
+                    }
+                }
+            }
+            Ok(Some(bad)) => {
+                let (sig, d) = match bad {
+                    Bad::PieceHasSep(p) => ("split|piece-contains-separator", json!({"piece": clip(&p)})),
+                    Bad::PieceUtf8(b) => ("split|invalid-utf8", json!({"piece": lossy(&b)})),
+                    Bad::JoinUtf8(b) => ("join|invalid-utf8", json!({"joined": lossy(&b)})),
+                    Bad::NotIdentity(j, k) => ("split-join|not-identity", json!({"joined": clip(&j), "pieces": k})),
+                };
+                self.fail(sig.into(), json!({"string": clip(h), "separator": clip(sep), "observed": d}), replay());
+            }
+        }
+    }
+
+    // ---- slice / len ----
+
+    fn check_slice(&mut self, arena: &Arena, s: &str, a: f64, b: f64) {
+        self.out.evaluations += 1;
+        if self.trace.is_some() {
+            self.trace("slice", s, &format!("{a:?}"), &format!("{b:?}"));
+        }
+        let nchars = s.chars().count();
+        let nan = a.is_nan() || b.is_nan();
+        let exp = if nan { None } else { Some(oracle_slice(s, a, b)) };
+        let r = util::guarded(|| {
+            let out = StringBuiltin::slice(s, a, b, arena);
+            let bytes = out.as_bytes();
+            match (std::str::from_utf8(bytes), &exp) {
+                (Err(_), _) => Some(Err(bytes.to_vec())),
+                (Ok(g), Some(e)) if g != e => Some(Ok(g.to_string())),
+                _ => None,
+            }
+        });
+        unsafe { arena.reset(0) };
+        let (ca, cb) = (bound_class(a, nchars), bound_class(b, nchars));
+        let replay = || json!({"op": "slice", "s": s, "a_bits": a.to_bits(), "b_bits": b.to_bits(), "a": format!("{a:?}"), "b": format!("{b:?}")});
+        match r {
+            Err((msg, loc)) => self.panic_fail("slice", &msg, &loc, replay()),
+            Ok(Some(Err(bytes))) => self.fail("slice|invalid-utf8".to_string(), json!({"string": clip(s), "start": format!("{a:?}"), "end": format!("{b:?}"), "got": lossy(&bytes)}), replay()),
+            Ok(Some(Ok(got))) => {
+                // the signature names the kind of disagreement, not the input class
+                let e = exp.as_deref().unwrap_or("");
+                let rel = if got.len() > e.len() && got.contains(e) {
+                    "too-long"
+                } else if got.len() < e.len() && e.contains(got.as_str()) {
+                    "too-short"
+                } else {
+                    "other-characters"
+                };
+                self.fail(
+                    format!("slice|differs|{rel}"),
+                    json!({"string": clip(s), "chars": nchars, "start": format!("{a:?}"), "end": format!("{b:?}"), "start_class": ca, "end_class": cb, "expected": exp, "got": got}),
+                    replay(),
+                );
+            }
+            Ok(None) => {
+                if nan {
+                    self.out.tag("slice.nan_bound_safety_only");
+                } else if ca != "plain" || cb != "plain" {
+                    self.out.nontrivial(hash_parts(&[b"slice", s.as_bytes(), &a.to_bits().to_le_bytes(), &b.to_bits().to_le_bytes()]));
+                    self.out.tag(&format!("slice.start={ca}"));
+                    self.out.tag(&format!("slice.end={cb}"));
+                    if self.out.samples.len() < self.out.max_samples && nchars >= 3 && s.len() != nchars && ca != cb && ca != "plain" && cb != "plain" && exp.as_deref() != Some("") && exp.as_deref() != Some(s) {
+                        self.out.sample(json!({"op": "slice", "string": s, "start": format!("{a:?}"), "end": format!("{b:?}"), "expected": exp}));
+                    }
+                }
+            }
+        }
+    }
+
+    fn check_len(&mut self, s: &str) {
+        self.out.evaluations += 1;
+        self.trace("len", s, "", "");
+        let exp = oracle_len(s);
+        match util::guarded(|| StringBuiltin::len(s)) {
+            Err((msg, loc)) => self.panic_fail("len", &msg, &loc, json!({"op": "len", "s": s})),
+            Ok(got) => {
+                if got != exp {
+                    self.fail("len|differs".into(), json!({"string": clip(s), "expected": exp, "got": got}), json!({"op": "len", "s": s}));
+                } else if s.len() as f64 != exp {
+                    self.out.tag("len.multibyte");
+                }
+            }
+        }
+    }
+
+    // ---- trim / case / to_number ----
+
+    fn check_str_op(&mut self, arena: &Arena, op: &'static str, s: &str, exp: &str) {
+        self.out.evaluations += 1;
+        self.trace(op, s, "", "");
+        let r = util::guarded(|| {
+            let out = match op {
+                "trim" => StringBuiltin::trim(s, arena),
+                "to_uppercase" => StringBuiltin::to_uppercase(s, arena),
+                "to_lowercase" => StringBuiltin::to_lowercase(s, arena),
+                _ => unreachable!(),
+            };
+            let bytes = out.as_bytes();
+            match std::str::from_utf8(bytes) {
+                Err(_) => Some(Err(bytes.to_vec())),
+                Ok(g) if g != exp => Some(Ok(g.to_string())),
+                Ok(_) => None,
+            }
+        });
+        unsafe { arena.reset(0) };
+        let replay = || json!({"op": op, "s": s});
+        match r {
+            Err((msg, loc)) => self.panic_fail(op, &msg, &loc, replay()),
+            Ok(Some(Err(bytes))) => self.fail(format!("{op}|invalid-utf8"), json!({"string": clip(s), "got": lossy(&bytes)}), replay()),
+            Ok(Some(Ok(got))) => self.fail(format!("{op}|differs"), json!({"string": format!("{s:?}"), "expected": format!("{exp:?}"), "got": format!("{got:?}")}), replay()),
+            Ok(None) => {
+                if exp != s {
+                    self.out.nontrivial(hash_parts(&[op.as_bytes(), s.as_bytes()]));
+                    self.out.tag(&format!("{op}.changes_input"));
+                    if exp.chars().count() != s.chars().count() && op != "trim" {
+                        self.out.tag(&format!("{op}.changes_length"));
+                    }
+                    if self.out.samples.len() < self.out.max_samples && self.idx % 11 == 0 {
+                        self.out.sample(json!({"op": op, "string": format!("{s:?}"), "expected": format!("{exp:?}")}));
+                    }
+                }
+            }
+        }
+    }
+
+    fn check_text(&mut self, arena: &Arena, s: &str) {
+        self.check_len(s);
+        self.check_str_op(arena, "trim", s, &oracle_trim(s));
+        let up = s.to_uppercase();
+        let up2: String = s.chars().flat_map(char::to_uppercase).collect();
+        if up == up2 {
+            self.check_str_op(arena, "to_uppercase", s, &up);
+        } else {
+            self.out.tag("to_uppercase.skipped_context_sensitive");
+        }
+        if !s.contains('Σ') {
+            let lo = s.to_lowercase();
+            let lo2: String = s.chars().flat_map(char::to_lowercase).collect();
+            if lo == lo2 {
+                self.check_str_op(arena, "to_lowercase", s, &lo);
+            } else {
+                self.out.tag("to_lowercase.skipped_context_sensitive");
+            }
+        }
+    }
+
+    /// `exp`: None = NaN expected.
+    fn check_to_number(&mut self, text: &str, exp: Option<f64>, class: &'static str) {
+        self.out.evaluations += 1;
+        self.trace("to_number", text, "", "");
+        let replay = || json!({"op": "to_number", "s": text, "expected_bits": exp.map(f64::to_bits), "class": class});
+        match util::guarded(|| StringBuiltin::to_number(text)) {
+            Err((msg, loc)) => self.panic_fail("to_number", &msg, &loc, replay()),
+            Ok(got) => {
+                let ok = match exp {
+                    None => got.is_nan(),
+                    // IEEE 754 conversions keep the sign of zero
+                    Some(e) => got == e && got.is_sign_negative() == e.is_sign_negative(),
+                };
+                if ok {
+                    self.out.tag(&format!("to_number.{class}"));
+                    self.out.nontrivial(hash_parts(&[b"to_number", text.as_bytes()]));
+                } else {
+                    self.fail(format!("to_number|differs|{class}"), json!({"text": clip(text), "expected": exp.map_or("NaN".to_string(), |e| format!("{e:?}")), "got": format!("{got:?}")}), replay());
+                }
+            }
+        }
+    }
+}
+
+// ---------------------------------------------------------------------------
+// Input construction
+// ---------------------------------------------------------------------------
+
+/// The `no`-th string (shortlex) over the two letters.
+fn shortlex(no: u64, letters: [char; 2]) -> String {
+    let v = no + 1;
+    let len = 63 - v.leading_zeros() as usize;
+    let bits = v - (1 << len);
+    (0..len).map(|i| letters[((bits >> (len - 1 - i)) & 1) as usize]).collect()
+}
+
+const ALPHAS: &[&[char]] = &[
+    &['a', 'b'],
+    &['a', 'b', 'c', 'd'],
+    &['a', 'é'],
+    &['a', 'é', '世', '🌎'],
+    &['a', 'b', 'c', 'd', 'e', 'f', 'g', 'h', 'i', 'j', 'k', 'l', 'm', 'n', 'o', 'p', 'q', 'r', 's', 't', 'u', 'v', 'w', 'x', 'y', 'z'],
+    &['x', 'y', ' ', ',', '-'],
+];
+
+/// A different character of the same UTF-8 length: exactly one byte of the text changes.
+fn twin(c: char, alpha: &[char]) -> char {
+    if let Some(p) = alpha.iter().position(|x| *x == c) {
+        for k in 1..alpha.len() {
+            let d = alpha[(p + k) % alpha.len()];
+            if d != c && d.len_utf8() == c.len_utf8() {
+                let (mut b1, mut b2) = ([0u8; 4], [0u8; 4]);
+                c.encode_utf8(&mut b1);
+                d.encode_utf8(&mut b2);
+                if b1.iter().zip(b2.iter()).filter(|(x, y)| x != y).count() == 1 {
+                    return d;
+                }
+            }
+        }
+    }
+    char::from_u32(c as u32 ^ 1).filter(|d| d.len_utf8() == c.len_utf8() && *d != '{' && *d != '}' && *d != '\\' && *d != '"').unwrap_or(if c == 'z' { 'y' } else { 'z' })
+}
+
+fn fib_word(x: char, y: char, len: usize) -> Vec<char> {
+    let (mut a, mut b): (Vec<char>, Vec<char>) = (vec![y], vec![x]);
+    while b.len() < len {
+        let mut c = b.clone();
+        c.extend_from_slice(&a);
+        a = b;
+        b = c;
+    }
+    b
+}
+
+const KINDS: [&str; 5] = ["periodic", "near-periodic", "fibonacci", "all-same", "random"];
+const FILLERS: [&str; 6] = ["clean", "one-needle-char", "needle-prefix-repeated", "needle-suffix-repeated", "random-same-alphabet", "defective-needle-repeated"];
+
+/// Characters of a needle of at most `max_bytes` bytes (at least one character).
+fn gen_needle(rng: &mut Rng, kind: usize, alpha: &[char], max_bytes: usize) -> Vec<char> {
+    let mut src: Vec<char> = match kind {
+        0 | 1 => {
+            let p = 1 + rng.usize(max_bytes.min(8));
+            let unit: Vec<char> = (0..p).map(|_| *rng.pick(alpha)).collect();
+            (0..max_bytes).map(|i| unit[i % p]).collect()
+        }
+        2 => {
+            let x = *rng.pick(alpha);
+            let mut y = *rng.pick(alpha);
+            if y == x {
+                y = alpha[(alpha.iter().position(|c| *c == x).unwrap() + 1) % alpha.len()];
+            }
+            let start = rng.usize(21);
+            fib_word(x, y, start + max_bytes)[start..].to_vec()
+        }
+        3 => vec![*rng.pick(alpha); max_bytes],
+        _ => (0..max_bytes).map(|_| *rng.pick(alpha)).collect(),
+    };
+    // cut to the byte budget
+    let mut bytes = 0;
+    let mut keep = 0;
+    for c in &src {
+        if bytes + c.len_utf8() > max_bytes {
+            break;
+        }
+        bytes += c.len_utf8();
+        keep += 1;
+    }
+    if keep == 0 {
+        // budget of 1 byte but a multi-byte first character: fall back to ASCII
+        return vec!['a'];
+    }
+    src.truncate(keep);
+    src
+}
+
+fn gen_filler(rng: &mut Rng, kind: usize, needle: &[char], alpha: &[char], nchars: usize) -> Vec<char> {
+    if nchars == 0 {
+        return Vec::new();
+    }
+    let cyc = |src: &[char]| -> Vec<char> {
+        if src.is_empty() { vec!['q'; nchars] } else { (0..nchars).map(|i| src[i % src.len()]).collect() }
+    };
+    match kind {
+        0 => vec![if needle.contains(&'z') { '#' } else { 'z' }; nchars],
+        1 => vec![*rng.pick(needle); nchars],
+        2 => cyc(&needle[..needle.len() - 1]),
+        3 => cyc(&needle[1..]),
+        4 => (0..nchars).map(|_| *rng.pick(alpha)).collect(),
+        _ => {
+            let mut d = needle.to_vec();
+            let p = rng.usize(d.len());
+            d[p] = twin(d[p], alpha);
+            cyc(&d)
+        }
+    }
+}
+
+fn str_of(cs: &[char]) -> String {
+    cs.iter().collect()
+}
+
+fn splice(filler: &[char], k: usize, mid: &[&[char]]) -> String {
+    let mut s = String::with_capacity(filler.len() * 2 + 64);
+    s.extend(&filler[..k]);
+    for m in mid {
+        s.extend(*m);
+    }
+    s.extend(&filler[k..]);
+    s
+}
+
+const WS: &[char] = &[
+    ' ', '\t', '\n', '\r', '\u{0B}', '\u{0C}', '\u{85}', '\u{A0}', '\u{1680}', '\u{2000}', '\u{2003}', '\u{200A}', '\u{2028}', '\u{2029}', '\u{202F}', '\u{205F}',
+    '\u{3000}',
+];
+/// No 'Σ' (context-sensitive lower-casing) and nothing whose white-space status differs between
+/// Unicode and other common definitions (U+FEFF, U+180E, U+001C..U+001F).
+const BODY: &[char] = &[
+    'a', 'z', 'A', 'Z', 'm', 'Q', 'i', 'I', '0', '9', '_', '-', '.', '!', 'ß', 'İ', 'ı', 'ǅ', 'ǆ', 'Ǆ', 'ŉ', 'ﬁ', 'σ', 'ς', 'é', 'É', 'д', 'Д', 'ÿ', 'µ', 'ſ', 'ǰ', 'ΐ', 'ᾳ',
+    '世', '🌎', '\u{301}', '\u{200B}', 'ẞ', 'Ⅷ', 'ⓐ',
+];
+
+fn gen_text(rng: &mut Rng) -> String {
+    let mut s = String::new();
+    let shape = rng.below(10);
+    let pre = if shape < 7 { rng.usize(4) } else { 0 };
+    let body = if shape == 9 { 0 } else { rng.usize(9) };
+    let post = if shape < 8 { rng.usize(4) } else { 0 };
+    for _ in 0..pre {
+        s.push(*rng.pick(WS));
+    }
+    for _ in 0..body {
+        if rng.chance(1, 8) {
+            s.push(*rng.pick(WS));
+        } else {
+            s.push(*rng.pick(BODY));
+        }
+    }
+    for _ in 0..post {
+        s.push(*rng.pick(WS));
+    }
+    s
+}
+
+const SLICE_CHARS: &[char] = &['a', 'b', 'Z', '0', ' ', 'é', 'ß', 'д', '世', '€', '🌎', '𝄞', '\u{301}'];
+
+fn slice_grid(len: usize) -> Vec<f64> {
+    #[allow(clippy::cast_precision_loss)]
+    let l = len as f64;
+    let pos = [0.0, 0.5, 1.0, 2.0, l - 1.0, l - 0.5, l, l + 0.5, l + 1.0, l / 2.0, 1e300, f64::INFINITY, 9.3e18, 9_223_372_036_854_775_807.0, 4_294_967_296.0, 1.8e19];
+    let mut v: Vec<f64> = Vec::with_capacity(40);
+    for p in pos {
+        v.push(p);
+        v.push(-p);
+    }
+    v.push(f64::MIN_POSITIVE);
+    v.push(-f64::MIN_POSITIVE);
+    v.push(f64::NAN);
+    v
+}
+
+// ---------------------------------------------------------------------------
+// Stages
+// ---------------------------------------------------------------------------
+
+fn stage_exhaustive(st: &mut St<'_>, arena: &Arena, idx: u64) {
+    if idx >= EXH_CASES {
+        return;
+    }
+    let idx = idx.wrapping_mul(st.pick_every) % EXH_CASES;
+    let letters = if idx / EXH_HAYSTACKS == 0 { ['a', 'b'] } else { ['a', 'é'] };
+    let h = shortlex(idx % EXH_HAYSTACKS, letters);
+    for nno in 0..EXH_NEEDLES {
+        let n = shortlex(nno, letters);
+        st.check_find(&h, &n, Near::Compute);
+        let nn = format!("{n}{n}");
+        for to in ["", "x", n.as_str(), nn.as_str(), "é"] {
+            st.check_replace(arena, &h, &n, to);
+        }
+        st.check_split_join(arena, &h, &n);
+    }
+    st.out.tag("exhaustive.haystacks_completed");
+    st.out.tag(if letters[1] == 'b' { "exhaustive.alphabet.ab" } else { "exhaustive.alphabet.a_e-acute" });
+}
+
+fn stage_tiers(st: &mut St<'_>, arena: &Arena, idx: u64, rng: &mut Rng) {
+    // systematic over tier x kind, random over the rest
+    // (kind fastest, so that the expensive long-needle tier is spread over all worker shards)
+    let kind = (idx % 5) as usize;
+    let t = ((idx / 5) % 4) as usize;
+    let round = idx / 20;
+    let max_bytes = match t {
+        0 => 1,
+        1 => 2,
+        2 => 3 + (round % 14) as usize,
+        _ => 17 + (round % 48) as usize,
+    };
+    let alpha = ALPHAS[rng.usize(ALPHAS.len())];
+    let needle = gen_needle(rng, kind, alpha, max_bytes);
+    let nbytes: usize = needle.iter().map(|c| c.len_utf8()).sum();
+    let fkind = rng.usize(FILLERS.len());
+    // total length up to ~200 bytes; a fifth of the cases are barely longer than the needle
+    let avg = if fkind == 0 || fkind == 1 { 1 } else { alpha.iter().map(|c| c.len_utf8()).sum::<usize>().div_ceil(alpha.len()) };
+    let room = if st.lite {
+        rng.usize(17)
+    } else if rng.chance(1, 5) {
+        rng.usize(9)
+    } else {
+        rng.usize(200usize.saturating_sub(nbytes) + 1)
+    };
+    let fchars = room / avg.max(1);
+    st.out.tag(&format!("needle_kind.{}", KINDS[kind]));
+    st.out.tag(&format!("filler.{}", FILLERS[fkind]));
+
+    // near-periodic: one defect at every position of the periodic needle
+    let variants: Vec<Vec<char>> = if kind == 1 {
+        (0..needle.len())
+            .filter(|d| !st.lite || *d == 0 || *d + 1 == needle.len() || *d == needle.len() / 2)
+            .map(|d| {
+                let mut v = needle.clone();
+                v[d] = twin(v[d], alpha);
+                v
+            })
+            .collect()
+    } else {
+        vec![needle]
+    };
+    const REPL_FIXED: [&str; 3] = ["", "x", "é"];
+    for needle in &variants {
+        let filler = gen_filler(rng, fkind, needle, alpha, fchars);
+        let n = str_of(needle);
+        let nn = format!("{n}{n}");
+        // not planted at all
+        let h0 = str_of(&filler);
+        st.check_find(&h0, &n, Near::No);
+        st.check_replace(arena, &h0, &n, "x");
+        for k in 0..=filler.len() {
+            let repl = |j: usize| -> &str {
+                match j % 5 {
+                    0 => REPL_FIXED[0],
+                    1 => REPL_FIXED[1],
+                    2 => n.as_str(),
+                    3 => nn.as_str(),
+                    _ => REPL_FIXED[2],
+                }
+            };
+            // exact copy at character position k (k == len: at the very end)
+            let h = splice(&filler, k, &[needle]);
+            st.check_find(&h, &n, Near::No);
+            st.check_replace(arena, &h, &n, repl(k));
+            // near-miss: one byte of the copy changed, position rotating with k
+            let mut miss = needle.clone();
+            let d = k % miss.len();
+            miss[d] = twin(miss[d], alpha);
+            let hm = splice(&filler, k, &[&miss]);
+            st.check_find(&hm, &n, Near::Planted);
+            if k % 3 == 0 {
+                st.check_replace(arena, &hm, &n, repl(k + 1));
+            }
+            // two adjacent copies (overlapping occurrences for periodic needles)
+            if k % 2 == 0 {
+                let hd = splice(&filler, k, &[needle, needle]);
+                st.check_replace(arena, &hd, &n, repl(k + 2));
+                if k % 4 == 0 {
+                    st.check_find(&hd, &n, Near::No);
+                    st.check_split_join(arena, &hd, &n);
+                }
+            }
+        }
+    }
+}
+
+fn stage_split(st: &mut St<'_>, arena: &Arena, rng: &mut Rng) {
+    for _ in 0..32 {
+        let alpha = ALPHAS[rng.usize(ALPHAS.len())];
+        let sep_bytes = 1 + rng.usize(20);
+        let kind = rng.usize(5);
+        let sep_chars = gen_needle(rng, if kind == 1 { 4 } else { kind }, alpha, sep_bytes);
+        let sep = str_of(&sep_chars);
+        let npieces = 1 + rng.usize(7);
+        let mut s = String::new();
+        for p in 0..npieces {
+            if p > 0 {
+                s.push_str(&sep);
+            }
+            // empty pieces put the separator at the start, at the end, or next to another one
+            let plen = if rng.chance(2, 5) { 0 } else { rng.usize(12) };
+            match rng.below(4) {
+                0 => {
+                    // a proper prefix of the separator (partial match)
+                    let cut = rng.usize(sep_chars.len());
+                    s.extend(&sep_chars[..cut]);
+                }
+                1 => {
+                    let cut = 1 + rng.usize(sep_chars.len());
+                    s.extend(&sep_chars[cut.min(sep_chars.len())..]);
+                }
+                _ => {
+                    for _ in 0..plen {
+                        s.push(*rng.pick(alpha));
+                    }
+                }
+            }
+        }
+        st.out.tag(&format!("split.separator_bytes.{}", match sep.len() { 1 => "1", 2 => "2", 3..=8 => "3..8", _ => "9..20" }));
+        if s.starts_with(&sep) {
+            st.out.tag("split.separator_at_start");
+        }
+        if s.len() > sep.len() && s.ends_with(&sep) {
+            st.out.tag("split.separator_at_end");
+        }
+        if s.contains(&format!("{sep}{sep}")) {
+            st.out.tag("split.separators_adjacent");
+        }
+        st.check_split_join(arena, &s, &sep);
+        st.check_find(&s, &sep, Near::No);
+    }
+}
+
+fn stage_slice(st: &mut St<'_>, arena: &Arena, idx: u64, rng: &mut Rng) {
+    // lengths 0..=8 systematically, then random up to 24
+    let nchars = if idx % 3 != 2 { (idx / 3 % 9) as usize } else { rng.usize(25) };
+    let s: String = (0..nchars).map(|_| *rng.pick(SLICE_CHARS)).collect();
+    st.check_len(&s);
+    let mut grid = slice_grid(nchars);
+    if st.lite {
+        grid = grid.into_iter().enumerate().filter(|(i, _)| i % 3 == (idx % 3) as usize).map(|(_, v)| v).collect();
+    }
+    for a in &grid {
+        for b in &grid {
+            st.check_slice(arena, &s, *a, *b);
+        }
+    }
+    // random finite bounds
+    for _ in 0..(if st.lite { 8 } else { 64 }) {
+        let span = nchars as i64 + 3;
+        let mut pick = || -> f64 {
+            #[allow(clippy::cast_precision_loss)]
+            let base = rng.range(-span, span) as f64;
+            match rng.below(4) {
+                0 => base + 0.25,
+                1 => base - 0.75,
+                _ => base,
+            }
+        };
+        let (a, b) = (pick(), pick());
+        st.check_slice(arena, &s, a, b);
+    }
+}
+
+fn gen_number_case(rng: &mut Rng) -> (String, Option<f64>, &'static str) {
+    match rng.below(8) {
+        0 => {
+            // shortest round-trip text of an arbitrary finite double: a correctly rounding parser returns it
+            loop {
+                let x = f64::from_bits(rng.next_u64());
+                if x.is_finite() {
+                    return (format!("{x}"), Some(x), "roundtrip-any-finite");
+                }
+            }
+        }
+        1 => {
+            #[allow(clippy::cast_precision_loss)]
+            let x = rng.range(-1_000_000_000_000_000, 1_000_000_000_000_000) as f64;
+            (format!("{x}"), Some(x), "integer")
+        }
+        2 | 3 => {
+            // a / 10^k with a < 2^53, k <= 15: one correctly rounded IEEE division gives the answer
+            let a = rng.below(1 << 53);
+            let k = rng.usize(16);
+            let digits = format!("{a:0width$}", width = k + 1);
+            let (ip, fp) = digits.split_at(digits.len() - k);
+            let neg = rng.chance(1, 3);
+            let zeros_l = "0".repeat(rng.usize(3));
+            let zeros_r = if k > 0 { "0".repeat(rng.usize(3)) } else { String::new() };
+            let text = if k > 0 { format!("{}{zeros_l}{ip}.{fp}{zeros_r}", if neg { "-" } else { "" }) } else { format!("{}{zeros_l}{ip}", if neg { "-" } else { "" }) };
+            #[allow(clippy::cast_precision_loss)]
+            // 10^k from integer arithmetic (exact below 2^53); powi has unspecified precision
+            let v = a as f64 / 10u64.pow(k as u32) as f64;
+            (text, Some(if neg { -v } else { v }), "decimal")
+        }
+        4 => {
+            let small = [("0", 0.0), ("-0", -0.0), ("0.0", 0.0), ("007", 7.0), ("1.50", 1.5), ("-12.25", -12.25), ("0.1", 0.1), ("0.30000000000000004", 0.300_000_000_000_000_04), ("9007199254740993", 9_007_199_254_740_992.0), ("123456789012345678901234567890", 1.234_567_890_123_456_8e29)];
+            let (t, v) = small[rng.usize(small.len())];
+            (t.to_string(), Some(v), "handpicked")
+        }
+        _ => {
+            // clearly not a number: contains a character no numeric spelling uses
+            const JUNK: &[char] = &['g', 'h', 'k', 'x', 'z', 'G', 'Q', '#', '$', '@', 'ß', 'é', '世', '/', '*', '!', '?'];
+            const MIX: &[char] = &['0', '1', '9', '.', '-', ' ', 'a'];
+            let n = 1 + rng.usize(6);
+            let at = rng.usize(n);
+            let s: String = (0..n).map(|i| if i == at { *rng.pick(JUNK) } else if rng.chance(1, 2) { *rng.pick(MIX) } else { *rng.pick(JUNK) }).collect();
+            (s, None, "not-a-number")
+        }
+    }
+}
+
+fn stage_text(st: &mut St<'_>, arena: &Arena, rng: &mut Rng) {
+    for _ in 0..48 {
+        let s = gen_text(rng);
+        st.check_text(arena, &s);
+    }
+    for _ in 0..24 {
+        let (text, exp, class) = gen_number_case(rng);
+        st.check_to_number(&text, exp, class);
+    }
+    // inputs whose treatment the documentation does not fix: safety only
+    for t in ["", " ", "inf", "-inf", "infinity", "nan", "NaN", "1e5", "1E-3", "+3", ".5", "5.", " 1", "1 ", "1_000", "0x10", "١٢٣", "-", ".", "e"] {
+        st.out.evaluations += 1;
+        if let Err((msg, loc)) = util::guarded(|| StringBuiltin::to_number(t)) {
+            st.panic_fail("to_number", &msg, &loc, json!({"op": "to_number", "s": t}));
+        }
+    }
+    st.out.tag("to_number.unspecified_spelling_safety_only");
+}
+
+// ---- script ----
+
+fn lit(s: &str) -> Option<String> {
+    if s.contains(['{', '}', '\r']) { None } else { Some(escape_plain(s, '"')) }
+}
+
+fn num_lit(x: f64) -> String {
+    if x < 0.0 || (x == 0.0 && x.is_sign_negative()) { format!("minus {}", -x) } else { format!("{x}") }
+}
+
+struct Line {
+    op: &'static str,
+    code: String,
+    expect: String,
+    inputs: J,
+}
+
+fn script_lines(rng: &mut Rng) -> Vec<Line> {
+    let mut lines: Vec<Line> = Vec::new();
+    let mut var = 0;
+    // receiver either as a literal or through a variable
+    let mut recv = |rng: &mut Rng, text: &str, pre: &mut String| -> Option<String> {
+        let l = lit(text)?;
+        if rng.chance(1, 2) {
+            var += 1;
+            pre.push_str(&format!("make v{var} get {l}\n"));
+            Some(format!("v{var}"))
+        } else {
+            Some(l)
+        }
+    };
+    // find / replace / split+join over every needle tier
+    for t in 0..4usize {
+        let alpha = ALPHAS[rng.usize(ALPHAS.len())];
+        let kind = rng.usize(5);
+        let max_bytes = match t {
+            0 => 1,
+            1 => 2,
+            2 => 3 + rng.usize(14),
+            _ => 17 + rng.usize(48),
+        };
+        let mut needle = gen_needle(rng, kind, alpha, max_bytes);
+        if kind == 1 {
+            let d = rng.usize(needle.len());
+            needle[d] = twin(needle[d], alpha);
+        }
+        let (fk, fl) = (rng.usize(FILLERS.len()), rng.usize(40));
+        let filler = gen_filler(rng, fk, &needle, alpha, fl);
+        let k = rng.usize(filler.len() + 1);
+        let n = str_of(&needle);
+        let planted: Vec<char> = if rng.chance(1, 4) {
+            let mut m = needle.clone();
+            let d = rng.usize(m.len());
+            m[d] = twin(m[d], alpha);
+            m
+        } else {
+            needle.clone()
+        };
+        let h = if rng.chance(1, 3) { splice(&filler, k, &[&planted, &needle]) } else { splice(&filler, k, &[&planted]) };
+        let Some(nl) = lit(&n) else { continue };
+        let mut pre = String::new();
+        if let Some(r) = recv(rng, &h, &mut pre) {
+            #[allow(clippy::cast_precision_loss)]
+            let e = naive_find(h.as_bytes(), n.as_bytes()).map_or(-1.0, |v| v as f64);
+            lines.push(Line { op: "find", code: format!("{pre}shout({r}.find({nl}))"), expect: format!("{e}"), inputs: json!({"h": h, "n": n}) });
+        }
+        let to = match rng.below(5) {
+            0 => String::new(),
+            1 => "x".to_string(),
+            2 => n.clone(),
+            3 => format!("{n}{n}"),
+            _ => "é".to_string(),
+        };
+        let mut pre = String::new();
+        if let (Some(r), Some(tl)) = (recv(rng, &h, &mut pre), lit(&to)) {
+            lines.push(Line { op: "replace", code: format!("{pre}shout({r}.replace({nl}, {tl}))"), expect: oracle_replace(&h, &n, &to), inputs: json!({"h": h, "n": n, "to": to}) });
+        }
+        let mut pre = String::new();
+        if let Some(r) = recv(rng, &h, &mut pre) {
+            lines.push(Line { op: "split_join", code: format!("{pre}shout({r}.split({nl}).join({nl}))"), expect: h.clone(), inputs: json!({"h": h, "n": n}) });
+        }
+    }
+    // slice / len
+    for _ in 0..3 {
+        let nchars = rng.usize(10);
+        let s: String = (0..nchars).map(|_| *rng.pick(SLICE_CHARS)).collect();
+        #[allow(clippy::cast_precision_loss)]
+        let l = nchars as f64;
+        let grid = [0.0, 0.5, 1.0, 2.0, l - 1.0, l - 0.5, l, l + 0.5, l + 1.0, l + 7.0, 1_000_000_000_000.0];
+        let pick = |rng: &mut Rng| {
+            let v: f64 = *rng.pick(&grid);
+            if rng.chance(1, 2) { -v } else { v }
+        };
+        let (a, b) = (pick(rng), pick(rng));
+        let mut pre = String::new();
+        if let Some(r) = recv(rng, &s, &mut pre) {
+            lines.push(Line { op: "slice", code: format!("{pre}shout({r}.slice({}, {}))", num_lit(a), num_lit(b)), expect: oracle_slice(&s, a, b), inputs: json!({"s": s, "a": a, "b": b}) });
+        }
+        let mut pre = String::new();
+        if let Some(r) = recv(rng, &s, &mut pre) {
+            lines.push(Line { op: "len", code: format!("{pre}shout({r}.len())"), expect: format!("{}", oracle_len(&s)), inputs: json!({"s": s}) });
+        }
+    }
+    // trim / case
+    for _ in 0..2 {
+        let s = gen_text(rng).replace('\r', "\u{2003}");
+        for op in ["trim", "to_uppercase", "to_lowercase"] {
+            let expect = match op {
+                "trim" => oracle_trim(&s),
+                "to_uppercase" => s.to_uppercase(),
+                _ => s.to_lowercase(),
+            };
+            let mut pre = String::new();
+            if let Some(r) = recv(rng, &s, &mut pre) {
+                lines.push(Line { op, code: format!("{pre}shout({r}.{op}())"), expect, inputs: json!({"s": s}) });
+            }
+        }
+    }
+    // to_number
+    for _ in 0..2 {
+        let (text, exp, _) = gen_number_case(rng);
+        let mut pre = String::new();
+        if let Some(r) = recv(rng, &text, &mut pre) {
+            let expect = exp.map_or("NaN".to_string(), |v| format!("{v}"));
+            lines.push(Line { op: "to_number", code: format!("{pre}shout({r}.to_number())"), expect, inputs: json!({"s": text}) });
+        }
+    }
+    lines
+}
+
+fn stage_script(st: &mut St<'_>, rng: &mut Rng, fixed_src: Option<(&str, Vec<String>)>) {
+    let lines = if fixed_src.is_some() { Vec::new() } else { script_lines(rng) };
+    let (src, expects): (String, Vec<String>) = match fixed_src {
+        Some((s, e)) => (s.to_string(), e),
+        None => (lines.iter().map(|l| l.code.as_str()).collect::<Vec<_>>().join("\n") + "\n", lines.iter().map(|l| l.expect.clone()).collect()),
+    };
+    st.out.evaluations += expects.len() as u64;
+    if let Some(f) = st.trace.as_mut() {
+        let _ = writeln!(f, "{}", json!({"op": "script", "a": src}));
+    }
+    let replay = json!({"op": "script", "src": src, "expected": expects});
+    let cfg = RunCfg { arena_mib: 16, ..RunCfg::default() };
+    let real = match util::guarded(|| pipeline::run_source(&src, cfg)) {
+        Ok(r) => r,
+        Err((msg, loc)) => {
+            st.panic_fail("script", &msg, &loc, replay);
+            return;
+        }
+    };
+    if !real.accepted {
+        // the front end refused a program that only contains documented calls on literals: not
+        // this property's subject (C07/C09), and most likely a mistake of this generator
+        st.out.inconclusive(st.idx, "script stage: program was rejected by the front end", json!({"src": clip(&src), "diagnostics": format!("{:?}", real.parse.iter().chain(real.sem.iter()).take(3).collect::<Vec<_>>())}));
+        return;
+    }
+    let op_of = |i: usize| lines.get(i).map_or("?", |l| l.op);
+    if real.ending != "ok" {
+        let i = real.output.len();
+        st.fail(format!("script|{}|ending={}", op_of(i), real.ending), json!({"statement": lines.get(i).map(|l| l.code.clone()), "outputs_before": i, "ending": real.ending}), replay);
+        return;
+    }
+    if real.output.len() != expects.len() {
+        st.fail("script|output-count".into(), json!({"expected": expects.len(), "got": real.output.len()}), replay);
+        return;
+    }
+    for (i, (got, exp)) in real.output.iter().zip(expects.iter()).enumerate() {
+        if got != exp {
+            let mut rp = replay.clone();
+            rp["line"] = json!(i);
+            st.fail(
+                format!("script|{}|differs", op_of(i)),
+                json!({"statement": lines.get(i).map(|l| clip(&l.code)), "inputs": lines.get(i).map(|l| l.inputs.clone()), "expected": format!("{exp:?}"), "got": format!("{got:?}")}),
+                rp,
+            );
+            return;
+        }
+        if std::str::from_utf8(got.as_bytes()).is_err() {
+            st.fail(format!("script|{}|invalid-utf8", op_of(i)), json!({}), replay.clone());
+        }
+    }
+    for l in &lines {
+        st.out.tag(&format!("script.{}", l.op));
+        st.out.nontrivial(hash_parts(&[b"script", l.code.as_bytes()]));
+    }
+    if st.out.samples.len() < st.out.max_samples && st.idx % 13 == 0 && !lines.is_empty() {
+        let l = &lines[(st.idx as usize / 13) % lines.len()];
+        st.out.sample(json!({"op": format!("script:{}", l.op), "program": clip(&l.code), "expected_output": clip(&l.expect)}));
+    }
+}
+
+// ---------------------------------------------------------------------------
+// Entry points
+// ---------------------------------------------------------------------------
 
 pub fn run(ctx: &mut Ctx) {
+    let stage = ctx.opt("stage").unwrap_or("exhaustive").to_string();
+    if stage == "replay" {
+        replay(ctx);
+        return;
+    }
+    if !matches!(stage.as_str(), "exhaustive" | "tiers" | "split" | "slice" | "text" | "script") {
+        eprintln!("strings: unknown stage {stage}");
+        std::process::exit(2);
+    }
+    let seed = ctx.seed;
+    let indices: Vec<u64> = ctx.indices().collect();
+    // The shared panic hook is silent. A panic that cannot unwind (std's checks of unsafe
+    // preconditions in debug builds) aborts the process, so its message must reach stderr.
+    let prev_hook = std::panic::take_hook();
+    std::panic::set_hook(Box::new(move |info| {
+        let msg = info.payload().downcast_ref::<&str>().map(|s| (*s).to_string()).or_else(|| info.payload().downcast_ref::<String>().cloned()).unwrap_or_default();
+        if msg.starts_with("unsafe precondition") {
+            eprintln!("{msg} at {}", info.location().map_or_else(String::new, ToString::to_string));
+        }
+        prev_hook(info);
+    }));
+    // The orchestrator restarts a worker (with --start > 0) after the case it died or stalled in.
+    // A defect that kills or stalls most cases would cost one watchdog period per case, so after
+    // the second death of a shard its remaining cases are skipped (and counted).
+    if let Some(hp) = ctx.opt("hashes")
+        && ctx.start > 0
+    {
+        let p = format!("{hp}.deaths");
+        let deaths = std::fs::read_to_string(&p).ok().and_then(|t| t.trim().parse::<u64>().ok()).unwrap_or(0) + 1;
+        let _ = std::fs::write(&p, deaths.to_string());
+        if deaths >= MAX_DEATHS_PER_SHARD {
+            ctx.out.tag_n("cases_skipped_after_repeated_worker_death", indices.len() as u64);
+            return;
+        }
+    }
+    let trace = ctx.opt("trace-file").map(|p| std::fs::OpenOptions::new().create(true).append(true).open(p).expect("trace file"));
+    let arena = Arena::new(ARENA_BYTES).expect("arena");
+    let lite = cfg!(miri) || ctx.opt("lite").is_some();
+    let pick_every = ctx.opt_u64("pick-every", 1).max(1);
+    let mut st = St { out: &mut ctx.out, idx: 0, stage: stage.clone(), sig_seen: HashMap::new(), trace, tier_evals: [0; 6], tier_nt: [0; 6], flip: false, lite, pick_every };
+    st.out.max_samples = 3;
+    for idx in indices {
+        st.idx = idx;
+        st.out.begin(idx);
+        let mut rng = Rng::new(util::case_seed(seed, &format!("strings.{stage}"), idx));
+        // every call into the implementation is guarded individually; this outer guard only
+        // protects the worker from a mistake in the harness itself
+        let r = util::guarded(|| match stage.as_str() {
+            "exhaustive" => stage_exhaustive(&mut st, &arena, idx),
+            "tiers" => stage_tiers(&mut st, &arena, idx, &mut rng),
+            "split" => stage_split(&mut st, &arena, &mut rng),
+            "slice" => stage_slice(&mut st, &arena, idx, &mut rng),
+            "text" => stage_text(&mut st, &arena, &mut rng),
+            _ => stage_script(&mut st, &mut rng, None),
+        });
+        if let Err((msg, loc)) = r {
+            st.out.inconclusive(idx, "harness panicked outside a guarded call", json!({"panic": msg, "at": loc}));
+            unsafe { arena.reset(0) };
+        }
+        st.flush_tiers();
+        st.out.tag(&format!("cases.{stage}"));
+    }
+}
+
+/// `nsworker strings --stage replay --file F --keep-stdout 1`: re-runs one recorded evaluation.
+pub fn replay(ctx: &mut Ctx) {
+    let path = ctx.opt("file").expect("--file").to_string();
+    let rec: J = serde_json::from_str(&std::fs::read_to_string(&path).expect("read replay")).expect("json");
+    let rp = if rec.get("replay").is_some() { rec["replay"].clone() } else { rec };
+    let s = |k: &str| rp.get(k).and_then(J::as_str).unwrap_or("").to_string();
+    let arena = Arena::new(ARENA_BYTES).expect("arena");
+    let op = s("op");
+    let (exp, got): (String, String) = match op.as_str() {
+        "find" => (format!("{:?}", naive_find(s("h").as_bytes(), s("n").as_bytes())), format!("{:?}", util::guarded(|| find(&s("h"), &s("n"))))),
+        "replace" => (format!("{:?}", oracle_replace(&s("h"), &s("n"), &s("to"))), format!("{:?}", util::guarded(|| replace(&arena, &s("h"), &s("n"), &s("to")).as_str().to_string()))),
+        "split_join" => (
+            format!("{:?}", s("h")),
+            format!(
+                "{:?}",
+                util::guarded(|| {
+                    let (h, n) = (s("h"), s("n"));
+                    let mut coll: Vec<Value<'_>, &Arena> = Vec::new_in(&arena);
+                    StringBuiltin::split(&h, &n, &arena).for_each(|p| coll.push(Value::Str(ArenaCow::Owned(p))));
+                    let pieces: Vec<String> = coll.iter().map(ToString::to_string).collect();
+                    (pieces, ArrayBuiltin::join(&coll, &n, &arena).as_str().to_string())
+                })
+            ),
+        ),
+        "slice" => {
+            let a = f64::from_bits(rp["a_bits"].as_u64().unwrap_or(0));
+            let b = f64::from_bits(rp["b_bits"].as_u64().unwrap_or(0));
+            (format!("{:?}", oracle_slice(&s("s"), a, b)), format!("{:?}", util::guarded(|| StringBuiltin::slice(&s("s"), a, b, &arena).as_str().to_string())))
+        }
+        "len" => (format!("{}", oracle_len(&s("s"))), format!("{:?}", util::guarded(|| StringBuiltin::len(&s("s"))))),
+        "trim" => (format!("{:?}", oracle_trim(&s("s"))), format!("{:?}", util::guarded(|| StringBuiltin::trim(&s("s"), &arena).as_str().to_string()))),
+        "to_uppercase" => (format!("{:?}", s("s").to_uppercase()), format!("{:?}", util::guarded(|| StringBuiltin::to_uppercase(&s("s"), &arena).as_str().to_string()))),
+        "to_lowercase" => (format!("{:?}", s("s").to_lowercase()), format!("{:?}", util::guarded(|| StringBuiltin::to_lowercase(&s("s"), &arena).as_str().to_string()))),
+        "to_number" => (
+            rp.get("expected_bits").and_then(J::as_u64).map_or("NaN".to_string(), |b| format!("{:?}", f64::from_bits(b))),
+            format!("{:?}", util::guarded(|| StringBuiltin::to_number(&s("s")))),
+        ),
+        "script" => {
+            let expects: Vec<String> = rp["expected"].as_array().map(|a| a.iter().map(|v| v.as_str().unwrap_or("").to_string()).collect()).unwrap_or_default();
+            let real = util::guarded(|| pipeline::run_source(&s("src"), RunCfg { arena_mib: 16, ..RunCfg::default() }));
+            let got = match real {
+                Ok(r) if r.ending == "ok" => format!("{:?}", r.output),
+                Ok(r) => format!("ending {:?} after {:?}", r.ending, r.output),
+                Err(e) => format!("panic {e:?}"),
+            };
+            (format!("{expects:?}"), got)
+        }
+        other => {
+            // a stalled or crashed batch: re-run the whole case
+            eprintln!("strings replay: no single operation recorded (op={other:?}); re-run with --stage <stage> --start <idx> --count <idx+1>");
+            std::process::exit(2);
+        }
+    };
+    let same = exp == got || got == format!("Ok({exp})");
+    eprintln!("op: {op}\ninputs: {}\nexpected: {exp}\nobserved: {got}\n{}", rp, if same { "AGREE" } else { "DIFFER" });
     let _ = ctx;
-    eprintln!("engine strings not implemented");
-    std::process::exit(2);
+    if !same {
+        std::process::exit(1);
+    }
 }
